@@ -322,8 +322,19 @@ def ndjson_write(path, rows):
             f.write("\n")
 
 
-def ndjson_read(path):
-    return [json.loads(l) for l in open(path) if l.strip()]
+def ndjson_read(path, tolerate_truncated_tail=False):
+    """`tolerate_truncated_tail`: the writer may have died in the middle of its last line (a child
+    process that the code under test aborted); that line is dropped, every other line must parse."""
+    lines = [l for l in open(path) if l.strip()]
+    out = []
+    for i, l in enumerate(lines):
+        try:
+            out.append(json.loads(l))
+        except ValueError:
+            if tolerate_truncated_tail and i == len(lines) - 1:
+                break
+            raise
+    return out
 
 
 def sany_all():
